@@ -30,6 +30,8 @@ class Sched:
         self.dead = False
         self.holding: dict[str, bool] = {}  # worker name -> holds an item (between get and put)
         self.multiT = None                  # multi-pass mode: threads per pass (labels get a "<pass>|" prefix)
+        self.max_steps = 200000             # a run that never quiesces (a retry loop around a timed-out get) is cut here
+        self.timeouts = 0                   # timed `get`s that were granted on an empty queue (the time-out fired)
 
     def register(self, name):
         with self.cv:
@@ -49,7 +51,8 @@ class Sched:
             self._dispatch(); self.cv.notify_all()
 
     def _enabled(self):
-        return [t for t, (k, q) in self.pending.items() if k == "put" or q.items]
+        # a `get` with a time-out (or non-blocking) on an empty queue is enabled too: the time-out may fire at any moment
+        return [t for t, (k, q) in self.pending.items() if k in ("put", "tget") or q.items]
 
     def _dispatch(self):
         if self.granted is not None or self.dead:
@@ -57,7 +60,7 @@ class Sched:
         if set(self.pending) != self.live:
             return
         en = sorted(self._enabled(), key=lambda t: self.names[t])
-        if not en:
+        if not en or len(self.taken) > self.max_steps:
             if self.live:
                 self.dead = True
             return
@@ -84,7 +87,11 @@ class Sched:
                     self.pending.pop(tid, None)
                     raise Deadlock()
                 self.cv.wait(0.02)
-            res = do()
+            try:
+                res = do()
+            except BaseException:          # a timed get on an empty queue: queue.Empty goes to the caller
+                del self.pending[tid]; self.granted = None
+                raise
             nm = self.names[tid]
             lab = label(nm, res)
             if lab:
@@ -145,7 +152,17 @@ def install(lp, sched: Sched, state: dict):
                 sched.holding[nm] = False
                 return f"wPut:{self._w(nm)}"
             sched.point("put", self, lambda: self.items.append(x), lab)
-        def get(self, *a, **k):
+        def get_nowait(self):
+            return self.get(block=False)
+        def put_nowait(self, x):
+            return self.put(x)
+        def get(self, block=True, timeout=None):
+            timed = (not block) or (timeout is not None)
+            def take():
+                if not self.items:
+                    sched.timeouts += 1
+                    raise realqueue.Empty()            # only reachable for a timed / non-blocking get
+                return self.items.pop(0)
             def lab(nm, res):
                 return self._tag(lab0(nm, res))
             def lab0(nm, res):
@@ -159,7 +176,7 @@ def install(lp, sched: Sched, state: dict):
                     return "cGet"
                 sched.holding[nm] = not isinstance(res, lp.StopSentinel)
                 return f"wGet:{self._w(nm)}"
-            return sched.point("get", self, lambda: self.items.pop(0), lab)
+            return sched.point("tget" if timed else "get", self, take, lab)
         def qsize(self):
             return len(self.items)
         def empty(self):
